@@ -32,6 +32,9 @@ def run(ctx):
     for _ in range(n):
         c = semrun.make_case(rng, profile={'inspect': True} if rng.random() < 0.5 else None,
                              opts={'lang': rng.choice(['', 'de', 'en']), 'pack': '*', 'unkn': True})
+        if rng.random() < 0.3:
+            # a replacement file is for the text of the document: it must not touch the list of names
+            c['opts']['repl'] = ['mycmd & xx', 'textbf & yy yy', 'zzz & q', 'foo & bar', 'emph & ']
         cases.append(c)
     ctx.stats['_rule'] = ('well-formed G-doc documents mixing declared and undeclared names in text, maths, arguments, footnotes, comments, '
                           'skipped regions, uses before definitions; run with --unkn; expected list = undeclared names in order of first text-mode '
